@@ -125,6 +125,17 @@ func addrRoot(v ssa.Value) ssa.Value {
 
 func (g *Global) directWrites(fn *ssa.Function) map[string]bool {
 	out := map[string]bool{}
+	// ghost variables the function's own contract updates are part of its frame, so that
+	// callers (direct or transitive) lose what they knew about them at the call
+	if g.cs != nil {
+		if fc := g.cs.Funcs[fnID(fn)]; fc != nil {
+			for _, s := range fc.Sites {
+				if s.Kind == "ghost-after" {
+					out["G|"+s.C.Label] = true
+				}
+			}
+		}
+	}
 	for _, b := range fn.Blocks {
 		for _, in := range b.Instrs {
 			g.instrWrites(in, out, true)
